@@ -86,14 +86,14 @@ def scale_of(fracs):
 # ----------------------------------------------------------------------------------------------
 def basis_calls(basis, m, xs):
     """The calling conventions for one (basis, m) and a list of rational abscissae: yields
-    (label, callable returning the array, index map: column -> position in xs, tolerance, exact_int)."""
+    (label, callable returning the array, index map: column -> position in xs, tolerance)."""
     fn = basis_fn(basis)
     xf = [float(x) for x in xs]
     yield 'f64-array', (lambda: fn(np.array(xf, dtype=np.float64), m)), list(range(len(xs))), TOL64
     yield 'f32-array', (lambda: fn(np.array(xf, dtype=np.float32), m)), list(range(len(xs))), TOL32
     rev = list(range(len(xs)))[::-1]
-    yield 'f64-strided', (lambda: fn(np.array(xf + xf, dtype=np.float64)[::-1][::2][:len(xf)] if False else
-                                     np.ascontiguousarray(np.array(xf, dtype=np.float64)[::-1]), m)), rev, TOL64
+    # a non-contiguous view, abscissae in reverse order
+    yield 'f64-strided', (lambda: fn(np.array([xf[::-1], xf[::-1]], dtype=np.float64).T[:, 0], m)), rev, TOL64
     ints = [k for k, x in enumerate(xs) if x.denominator == 1]
     if ints:
         yield 'int-array', (lambda: fn(np.array([int(xs[k]) for k in ints], dtype=np.int64), m)), ints, TOL64
@@ -244,8 +244,7 @@ def fits_rec(basis, xmin, xmax, coeff, jump=None):
 
 def tset_conventions(c):
     zero = any(w == (0, 1) for row in c['w'] for w in row)
-    out = ['xy2traceset-invvar', 'TraceSet-inmask' if zero else 'TraceSet-plain', 'fits']
-    return out
+    return ['xy2traceset-invvar', 'TraceSet-inmask' if zero else 'TraceSet-plain', 'fits']
 
 
 def build_tset(c, exp, conv):
@@ -266,8 +265,12 @@ def build_tset(c, exp, conv):
     if conv == 'xy2traceset-invvar':
         kw['invvar'] = w
         return xy2traceset(xpos, ypos, **kw), xpos
+    # the zero-weight points go through inmask, the other weights (if not all one) through invvar
     if conv == 'TraceSet-inmask':
         kw['inmask'] = w > 0
+    wpos = np.where(w > 0, w, 1.0)
+    if not (wpos == 1).all():
+        kw['invvar'] = wpos
     if c['basis'] == 'legendre':
         del kw['func']
     if int(c['nc']) == 3:
@@ -683,8 +686,8 @@ def tset_law_records(rng, nprng, n):
             dmax = max(dmax, float(np.abs(r - t.coeff[k, :]).max()))
         recs.append(law('tscoeff', units(dmax, max(1.0, float(np.abs(t.coeff).max()))), width=width, **info))
         if jump and width == 64:
-            below = xpos[:, xpos[0, :] + 0.5 < kw['xjumplo']]
-            above = xpos[:, xpos[0, :] - 0.5 > kw['xjumphi']]
+            below = xpos[:, (xpos <= kw['xjumplo']).all(axis=0)]
+            above = xpos[:, (xpos >= kw['xjumphi']).all(axis=0)]
             if below.shape[1]:
                 d = np.abs(t.xy(below)[1] - t.xy(below, ignore_jump=True)[1]).max()
                 recs.append(law('jumpbelow', units(d, sc), pre=bool((below <= kw['xjumplo']).all()), **info))
@@ -771,16 +774,24 @@ def record_direction(ctx):
         recs += generate(gen, n, ctx.seed)
     wire = [{kk: v for kk, v in rec.items() if kk not in WIRE_DROP} for rec in recs]
     bad = core.validate_records(ctx, 'Trace_TraceSetPoly', wire, chunk=max(len(wire), 1))
-    ctx.evaluated(len(recs), 'recorded')
-    ctx.validated(len(recs))
+    big = sum(1 for v in bad.values() if v == 'toobig')
+    if big > len(recs) // 10:
+        raise core.MachineryError('%d of %d records are outside the exact range of the specification' % (big, len(recs)))
+    ctx.evaluated(len(recs) - big, 'recorded')
+    ctx.evaluated(big, 'recorded-set-aside')
+    ctx.validated(len(recs) - big)
     for i, rec in enumerate(recs):
         if rec['kind'] != 'law':
             ctx.nontriv(('rec', i))
         if rec.get('exc') and i not in bad:
             bad[i] = 'exception ' + rec['exc']
+    setaside = 0
     for i in sorted(bad):
         rec = recs[i]
-        if bad[i] in ('notwellposed', 'precondition', 'specerror', 'unknownlaw', 'unknownkind'):
+        if bad[i] == 'toobig':          # outside what the specification can compute exactly: set aside, not judged
+            setaside += 1
+            continue
+        if bad[i] in ('notwellposed', 'precondition', 'unknownlaw', 'unknownkind'):
             raise core.MachineryError('record %d rejected for a harness reason (%s): %r' % (i, bad[i], rec))
         brief = {kk: v for kk, v in rec.items() if kk not in ('vals', 'gvals', 'res', 'yfit', 'origin')}
         report(ctx, ('record', rec['kind'], rec.get('basis'), bad[i].split(':')[0]),
